@@ -13,26 +13,26 @@ func init() {
 		Technique: "response-addressing provenance + guard dominance of every Send + consumed-peek audit of every discarded RetrieveIncoming + no-loss-after-retrieve path rule",
 		Explanation: "Decides, for the memory-protocol agents (mem/ outside mem/vm): (1) every response under construction takes RspTo and Dst from the ID and source of one request record (the request itself or the record stored when it was admitted), with DataReadyRsp built from read records and WriteDoneRsp from write records; " +
 			"(2) every Port.Send in mem/ and noc/ is dominated by a successful CanSend on the same port (in the function, in every caller, or through a guard wrapper); (3) every RetrieveIncoming whose result is discarded is a consumed peek — the same port was peeked in that function, or the peeked message was passed in as a parameter; " +
-			"(4) on no path is a message retrieved from a port and then abandoned because a later CanSend test fails (back-pressure must be tested before the message is removed).",
+			"(4) on no path is a message retrieved from a port and then abandoned because a later CanSend test fails (back-pressure must be tested before the message is removed). (tag-install-valid) a function that installs a tag into a directory block does not mark that block invalid; (storage-write-mask) every function that commits a write request's payload to backing storage consults the request's DirtyMask.",
 		NotDecided:  "every clause about data bytes, dirty masks, coalescing, eviction gating, and 'exactly one response' beyond addressing: these depend on cache contents and transaction flows.",
 		Assumptions: []string{"request records name their ID/source fields with an ID/Src suffix and a common stem (checked on every site: an unrecognised naming is reported, not skipped)"},
 	}, runC16)
 	register("C21", PropertyMeta{
-		Technique: "decision tables of the reorder buffer's admit/match/release steps + response provenance",
-		Explanation: "Decides on mem/rob/middleware.go: the transaction released by bottomUp is element 0 of the transaction list, only when it has its response and the top port can send, and the list is then advanced by exactly one; transactions are appended only by topDown, recording the top request's ID and source and the shadow request's ID; bottom responses are matched to a transaction by comparing the stored shadow ID with the response's RspTo; the top response takes Dst, RspTo and data from that same transaction, DataReadyRsp for reads and WriteDoneRsp for writes.",
+		Technique:   "decision tables of the reorder buffer's admit/match/release steps + response provenance",
+		Explanation: "Decides on mem/rob/middleware.go: the transaction released by bottomUp is element 0 of the transaction list, only when it has its response and the top port can send, and the list is then advanced by exactly one; transactions are appended only by topDown, recording the top request's ID and source and the shadow request's ID; bottom responses are matched to a transaction by comparing the stored shadow ID with the response's RspTo; the top response takes Dst, RspTo and data from that same transaction, DataReadyRsp for reads and WriteDoneRsp for writes. (state-lossless) the reorder buffer's State (including the held response data) is lossless through the checkpoint codec.",
 		NotDecided:  "timing; behaviour of the lower unit.",
 		Assumptions: []string{},
 	}, runC21)
 	register("C23", PropertyMeta{
-		Technique: "decision tables of request intake and completion + response provenance + explicit-placement rule for staged chunks",
-		Explanation: "Decides on mem/datamover: a new request is retrieved only when no transaction is active and is recorded with its ID and source; the acknowledgement is sent exactly once, only when every issued read and write has been acknowledged, addressed with the active transaction's request ID and source, and the transaction is cleared on that path; a staged source chunk is stored at the slot computed from its address (so arrival order cannot permute data) and holds a private copy of the bytes.",
+		Technique:   "decision tables of request intake and completion + response provenance + explicit-placement rule for staged chunks",
+		Explanation: "Decides on mem/datamover: a new request is retrieved only when no transaction is active and is recorded with its ID and source; the acknowledgement is sent exactly once, only when every issued read and write has been acknowledged, addressed with the active transaction's request ID and source, and the transaction is cleared on that path; a staged source chunk is stored at the slot computed from its address (so arrival order cannot permute data) and holds a private copy of the bytes. (idempotent-stall) nothing that advances the cursors or releases staged bytes runs before a destination-busy stall test.",
 		NotDecided:  "everything else about bytes and granularity chunking (value-level).",
 		Assumptions: []string{},
 	}, runC23)
 	register("C25", PropertyMeta{
 		Technique: "response-addressing provenance over the translation agents + stale-response guard audit + no-loss-after-retrieve path rule + the pipeline region coverage of C15",
 		Explanation: "Decides, for mem/vm (address translator, TLB, MMU cache, MMU, GMMU): (1) the RspTo and Dst of every TranslationRsp (and forwarded memory response) derive from the ID and source of one request record; (2) a bottom response is discarded as stale only on a path that compared its RspTo with an outstanding request; " +
-			"(3) no translation response is retrieved from a port and then dropped because a later CanSend fails; (4) the TLB's pipeline configuration cannot strand a request (C15's item-state coverage, re-run here).",
+			"(3) no translation response is retrieved from a port and then dropped because a later CanSend fails; (4) the TLB's pipeline configuration cannot strand a request (C15's item-state coverage, re-run here). (key-injective) lruset.KeyString separates its fields by a constant or gives every field after the first a fixed zero-padded width.",
 		NotDecided:  "physical address arithmetic, page offset preservation, invalidation semantics against page-table updates.",
 		Assumptions: []string{},
 	}, runC25)
@@ -156,7 +156,9 @@ func noLossAfterRetrieveRule(c *Ctx, rule string, pred func(string) bool) {
 		analysed++
 		bad := ""
 		for _, r := range t.Rows {
-			retr := r.Calls(func(e *Effect) bool { return e.Kind == "call" && e.Callee != nil && e.Callee.Name() == "RetrieveIncoming" })
+			retr := r.Calls(func(e *Effect) bool {
+				return e.Kind == "call" && e.Callee != nil && e.Callee.Name() == "RetrieveIncoming"
+			})
 			if len(retr) == 0 {
 				continue
 			}
@@ -179,7 +181,9 @@ func noLossAfterRetrieveRule(c *Ctx, rule string, pred func(string) bool) {
 						continue
 					}
 					// was anything sent or stored for this message afterwards?
-					sends := r.Calls(func(e *Effect) bool { return e.Kind == "call" && e.Callee != nil && e.Callee.Name() == "Send" && e.Gen > retr[0].Gen })
+					sends := r.Calls(func(e *Effect) bool {
+						return e.Kind == "call" && e.Callee != nil && e.Callee.Name() == "Send" && e.Gen > retr[0].Gen
+					})
 					if len(sends) == 0 && r.Out.Kind == "return" {
 						bad = "after " + retr[0].Str + " the path tests " + a.Key + ", finds it false and returns without sending: the retrieved message is lost (" + truncate(r.String(), 200) + ")"
 					}
@@ -271,6 +275,8 @@ func maskAwareRule(c *Ctx, rule string) {
 }
 
 func runC16(c *Ctx) {
+	storageWriteMaskRule(c, "storage-write-mask", 3)
+	tagInstallValidRule(c, "tag-install-valid", 5)
 	maskAwareRule(c, "mask-aware-full-line")
 	responseAddressingRule(c, "response-addressing", memNonVM, 20)
 	responseKindRule(c, "response-kind", memNonVM)
@@ -290,6 +296,19 @@ func runC16(c *Ctx) {
 }
 
 func runC21(c *Ctx) {
+	// the response held for a transaction that waits behind the head of line is
+	// component state: it must survive a checkpoint like the rest of the record
+	{
+		_, states := c.P.componentTypeArgs()
+		robStates := map[string]types.Type{}
+		for k, t := range states {
+			if strings.Contains(k, "mem/rob.") {
+				robStates[k] = t
+			}
+		}
+		losslessRule(c, "state-lossless", "state", robStates)
+		c.Floor("state-lossless", 1)
+	}
 	p := c.P
 	dom := []int{0, 1, 2}
 	trF := c.field("anchors", "mem/rob", "State", "Transactions")
@@ -364,7 +383,9 @@ func runC21(c *Ctx) {
 			if !strings.Contains(a, "ReqToBottomID:") || !strings.Contains(a, "buildShadowReq(") {
 				ok, why = false, "the record must keep the ID of the shadow request sent downstream"
 			}
-			ret := r.Calls(func(e *Effect) bool { return e.Kind == "call" && e.Callee != nil && e.Callee.Name() == "RetrieveIncoming" })
+			ret := r.Calls(func(e *Effect) bool {
+				return e.Kind == "call" && e.Callee != nil && e.Callee.Name() == "RetrieveIncoming"
+			})
 			snd := r.Calls(func(e *Effect) bool { return e.Kind == "call" && e.Callee != nil && e.Callee.Name() == "Send" })
 			if len(ret) != 1 || len(snd) != 1 {
 				ok, why = false, "an admitted request is forwarded once and removed from the top port once"
@@ -428,6 +449,9 @@ func runC21(c *Ctx) {
 }
 
 func runC23(c *Ctx) {
+	// a stalled write (destination port busy) is retried next tick: nothing that
+	// advances the cursors or releases staged bytes may run before the stall test
+	idempotentStallRule(c, "idempotent-stall", func(pp string) bool { return pp == pkgPath("mem/datamover") }, 1)
 	// the staging buffer's base offset stays a multiple of the source granularity: chunk
 	// slots are computed from it
 	if of := c.field("offset-aligned", "mem/datamover", "bufferState", "Offset"); of != nil {
@@ -494,7 +518,9 @@ func runC23(c *Ctx) {
 			{Name: "none", IsBool: true, Match: func(a *Atom) bool { return strings.Contains(a.Key, "nil") && a.HasName("PeekIncoming") }},
 		}
 		CheckTable(c, "intake-table", "mem/datamover.ctrlParseMW.parseFromCP", p.Decl(f).Pos(), t, roles, dom, nil, func(v RoleVals, r *Row) (bool, string) {
-			ret := r.Calls(func(e *Effect) bool { return e.Kind == "call" && e.Callee != nil && e.Callee.Name() == "RetrieveIncoming" })
+			ret := r.Calls(func(e *Effect) bool {
+				return e.Kind == "call" && e.Callee != nil && e.Callee.Name() == "RetrieveIncoming"
+			})
 			st := r.Stores(func(e *Effect) bool { return e.RecvHas(ctF) && sameObj(e.Recv[len(e.Recv)-1].Obj, ctF) })
 			if v.B("active") {
 				if len(ret)+len(st) != 0 {
@@ -601,7 +627,9 @@ func staleGuardRule(c *Ctx, rule string) {
 				continue
 			}
 			// a path that neither forwards nor keeps waiting: returns true (progress) without sending = discard
-			retr := r.Calls(func(e *Effect) bool { return e.Kind == "call" && e.Callee != nil && e.Callee.Name() == "RetrieveIncoming" })
+			retr := r.Calls(func(e *Effect) bool {
+				return e.Kind == "call" && e.Callee != nil && e.Callee.Name() == "RetrieveIncoming"
+			})
 			stores := r.Stores(func(e *Effect) bool { return strings.Contains(e.RecvS, ".State.") })
 			if len(retr) > 0 && len(stores) == 0 {
 				consulted := false
@@ -632,6 +660,7 @@ func staleGuardRule(c *Ctx, rule string) {
 }
 
 func runC25(c *Ctx) {
+	keyInjectiveRule(c, "key-injective")
 	responseAddressingRule(c, "response-addressing", memVM, 12)
 	sendGuardRule(c, "send-guard", memVM, 15)
 	consumedPeekRule(c, "consumed-peek", memVM, 15)
